@@ -234,12 +234,19 @@ class FileDataPdu(AbstractPduBase):
         file_data_packet = cls.__empty()
         file_data_packet._pdu_header = PduHeader.unpack(data=data)
         file_data_packet._pdu_header.verify_length_and_checksum(data)
+        # Only parse the declared PDU without the CRC trailer.
+        end_of_data = file_data_packet.packet_len
+        if file_data_packet.pdu_header.crc_flag == CrcFlag.WITH_CRC:
+            end_of_data -= 2
+        data = data[:end_of_data]
         current_idx = file_data_packet.pdu_header.header_len
         if file_data_packet.pdu_header.segment_metadata_flag:
+            if current_idx >= len(data):
+                raise BytesTooShortError(current_idx + 1, len(data))
             rec_cont_state = RecordContinuationState((data[current_idx] & 0xC0) >> 6)
             segment_metadata_len = data[current_idx] & 0x3F
             current_idx += 1
-            if current_idx + segment_metadata_len >= len(data):
+            if current_idx + segment_metadata_len > len(data):
                 raise BytesTooShortError(current_idx + segment_metadata_len, len(data))
             metadata = data[current_idx : current_idx + segment_metadata_len]
             current_idx += segment_metadata_len
@@ -250,7 +257,7 @@ class FileDataPdu(AbstractPduBase):
             struct_arg_tuple = ("!I", 4)
         else:
             struct_arg_tuple = ("!Q", 8)
-        if current_idx + struct_arg_tuple[1] >= len(data):
+        if current_idx + struct_arg_tuple[1] > len(data):
             raise ValueError("Packet too small to accommodate offset")
         file_data_packet._params.offset = struct.unpack(
             struct_arg_tuple[0],
